@@ -5,12 +5,15 @@
   `decode_encode`            the UTF-8 encoding of a text of scalar values decodes to the text
   `parse_bytes_eq_text`      so `parse(text.encode("utf8"))` IS `parse(text)` — same tree, same error — for `parse`,
                              `parse_value`, `parse_type` and all flags: every theorem about texts holds for their bytes
+  `decode_ok_iff`            and the decoder accepts ONLY such encodings: it is the inverse of `encode` (strict UTF-8)
+  `parse_bytes_accepts_iff`  a bytes source is accepted exactly when it is the encoding of an accepted text, with the same tree
   `decode_error_in_range`    a source that is not valid UTF-8 is rejected at a character offset within the source
   `parse_bytes_total`        and never with anything but a syntax error (the model has no other outcome: stated as the shape
                              of the result)
 -/
 import PyGqlModel.ParseBytes
 import PyGqlModel.Lemmas.Utf8Roundtrip
+import PyGqlModel.Lemmas.Utf8Sound
 namespace PyGql.Props.C01
 open PyGql PyGql.Parse PyGql.Ast PyGql.Utf8
 
@@ -56,6 +59,34 @@ theorem parse_bytes_total (fl : Flags) (bs : List Nat) :
   cases h : decode bs with
   | ok t => exact .inl ⟨t, rfl, by simp [parseBytesE, onBytes, h]⟩
   | error p => exact .inr ⟨p, decode_error_in_range bs p h, by simp [parseBytesE, onBytes, h]⟩
+
+/-- `decode_ok_iff`: the decoder accepts EXACTLY the UTF-8 encodings of texts of Unicode scalar values (shortest form, no
+    surrogates, at most U+10FFFF) and returns the text: `bytes.decode("utf8")` is the inverse of `str.encode("utf8")`. -/
+theorem decode_ok_iff (bs : List Nat) (t : Text) : decode bs = .ok t ↔ (t.all isScalar = true ∧ encode t = bs) := by
+  constructor
+  · intro h
+    obtain ⟨u, e, hu, hb⟩ := feed_sound bs.length bs [] t (Nat.le_refl _) h
+    simp only [List.reverse_nil, List.nil_append] at e
+    subst e
+    exact ⟨hu, hb⟩
+  · rintro ⟨ht, rfl⟩
+    exact decode_encode t ht
+
+/-- `parse_bytes_accepts_iff`: a `bytes` source is accepted EXACTLY WHEN it is the UTF-8 encoding of a text (of scalar values)
+    that `parse` accepts, and the tree is that text's tree — so "text accepted ⇔ derives from the grammar"
+    (`parse_text_accepts_iff`) carries over to bytes sources verbatim. -/
+theorem parse_bytes_accepts_iff (fl : Flags) (bs : List Nat) (d : Document) :
+    parseBytesE fl bs = .ok d ↔ ∃ t, t.all isScalar = true ∧ encode t = bs ∧ parseTextE fl t = .ok d := by
+  constructor
+  · intro h
+    simp only [parseBytesE, onBytes] at h
+    split at h
+    · rename_i t ht
+      obtain ⟨h1, h2⟩ := (decode_ok_iff bs t).1 ht
+      exact ⟨t, h1, h2, h⟩
+    · cases h
+  · rintro ⟨t, ht, rfl, hp⟩
+    rw [(parse_bytes_eq_text fl t ht).1]; exact hp
 
 /-! ### non-vacuity -/
 /-- `é`, `€`, U+1F600 and a lone-surrogate-free text round-trip -/
